@@ -634,6 +634,12 @@ class Ops:
     def loop_enter(self, lid, st, info, env):
         pass
 
+    def comp_enter(self, info):
+        pass
+
+    def comp_exit(self, info):
+        pass
+
     def loop_elem(self, elem, lid, info):
         if isinstance(elem, TV) and info.get("symmetric"):
             return elem.but(gen=elem.gen | {lid})
